@@ -186,3 +186,15 @@ CLAIMED['C08'] = (
     NOTE_COMMON + 'Value theorems for Karatsuba, Dadda, Wallace, 2^k-1, squarers and the positional decode/width of DEFAULT are not proved yet '
     '(partial; gate-exact correspondence + oracle).',
     'Lean 4 proof (free-monad program logic, partial-product lemma, shift-add invariant) + gate-exact correspondence + value oracle')
+CLAIMED['C06'] = (
+    'DESIGN.md 5/C06',
+    'Theorems about the CNF encoding (variables s/g/x/f, clause groups and user constraints mirrored from the code): SOUNDNESS — every '
+    'satisfying assignment decodes to a circuit with exactly N gates, each reading two distinct earlier positions with an operation of '
+    'the basis (built-in or custom), every output at a gate, agreeing with every table entry that is not a don\'t-care (value variables '
+    '= evaluated values by induction over positions; don\'t-care rows skipped only when every output is a don\'t-care), and obeying '
+    'every fix_gate / forbid_wire / normalisation constraint; COMPLETENESS — every such circuit is a satisfying assignment and decodes '
+    'back to itself; hence with any sound+complete solver find_circuit returns only such circuits and raises NoSolutionError exactly '
+    'when none exists. The regenerated _tt_to_gate_type table is proved correct. The code\'s clause multiset (names via IDPool) and '
+    'its decoding of a model are compared with the Lean encoding on every run; the search cross-checks NoSolutionError by brute force.',
+    NOTE_COMMON + 'pysat absent: shim solver (DPLL / z3, models re-checked); solver is a parameter of the theorem. Time-limit path and DB shortcut not modelled.',
+    'Lean 4 proof (encoding soundness + completeness, exactly-one lemmas, induction over gate positions) + clause-exact correspondence + brute-force oracle')
